@@ -680,8 +680,11 @@ def falsify_C16(ctx):
             coj = int(real([f"coj {gen.cost_str(c[2])} {na}"])[0])
             if cn != coj:
                 cex.append({"kind": "rbf_need_not_cost_of_arrivals", "op": f"need {gen.rb_str(c)} {d}", "impl": cn, "cost_of_jobs(number_arrivals)": coj})
+            ctop = sum(sorted(cj, reverse=True)[:k])
+            if cb != ctop:
+                cex.append({"kind": "by_n_jobs_not_n_largest", "op": f"nbn {gen.rb_str(c)} {d} {k}", "impl": cb, "sum_of_n_largest": ctop})
             comp_need += cn
-            comp_nbn += cb
+            comp_nbn += ctop
             comp_jc += cj
             idx += 5
         if need != comp_need:
